@@ -89,6 +89,15 @@ Definition replay_eqv (ed : bool) (r c : list dump_entry) : bool :=
       present (added before and not removed since): Add replaces the target by
       an empty one and announces nothing. *)
 
+(** class 5 (KF-C03-5): a notification written through the exported Target
+    handle whose prefix names no target is stored in the handle's target (its
+    first index element dropped, being taken for the target name) but announced
+    to the feed without a target: the replay holds it under the empty target *)
+Definition targetless_handle_write (ops : list cop) : bool :=
+  existsb (fun o => match o with
+                    | OUpdT _ _ n => String.eqb (feed_target n) ""
+                    | _ => false end) ops.
+
 (** targets present after the calls [ops], starting from [names] *)
 Definition present_after (names : list string) (ops : list cop) : list string :=
   fold_left (fun l o => match o with
@@ -130,7 +139,8 @@ Definition origin_written (ops : list cop) (e : dump_entry) : bool :=
     end) ops.
 
 Definition known_class (cfg : config) (names : list string) (before : list cop) (o : cop) (ob : cobs) (r : rmap) : N :=
-  if existsb (fun e => name_in (fst (fst e)) (readded names before)) (extra_keys r (o_dump ob)) then 4%N
+  if targetless_handle_write before && existsb (fun e => String.eqb (fst (fst e)) "") r then 5%N
+  else if existsb (fun e => name_in (fst (fst e)) (readded names before)) (extra_keys r (o_dump ob)) then 4%N
   else if existsb (origin_written before) (extra_keys r (o_dump ob)) then 3%N
   else 0%N.
 
